@@ -125,6 +125,7 @@ func runC16(e *Env, p *Plan) {
 				simrt.Yield("after-fault")
 			}
 			time.Sleep(300 * time.Millisecond)
+			simrt.Yield("after-fault-wake") // the gates wake at the same instant: the scheduler orders them
 			e.Probe("reverse-call-after-reconnect")
 			w.Exec(op, nil)
 		})
